@@ -224,6 +224,20 @@ edit("B24-multipart-inner-poll-rename-all", "actix-multipart/src/multipart.rs", 
 edit("B25-files-path-rename-all", "actix-files/src/path_buf.rs", rename_all(r"    pub fn parse_path\(", r"\n    \}\n"))
 edit("B26-encoder-rename-all", "actix-http/src/encoding/encoder.rs", rename_all(r"impl<B> MessageBody for Encoder<B>", r"\n\}\n"))
 
+# ---- equivalent spellings of tests -------------------------------------------------------------
+def repl(old, new, count=None):
+    def g(s):
+        n = s.count(old)
+        assert n >= 1 and (count is None or n == count), (old, n)
+        return s.replace(old, new)
+    return g
+
+edit("B27-h2-len-eq-zero", "actix-http/src/h2/dispatcher.rs", repl("chunk.is_empty()", "chunk.len() == 0"))
+edit("B28-encoder-len-eq-zero", "actix-http/src/h1/encoder.rs", repl("msg.is_empty()", "msg.len() == 0"))
+edit("B29-dispatcher-matches-none", "actix-http/src/h1/dispatcher.rs", repl("&& inner_p.payload.is_none()", "&& matches!(inner_p.payload, None)", 1))
+edit("B30-dispatcher-len-eq-zero", "actix-http/src/h1/dispatcher.rs", repl("if state_is_none && inner_p.write_buf.is_empty() {", "if state_is_none && inner_p.write_buf.len() == 0 {", 1))
+edit("B31-multipart-eof-len", "actix-multipart/src/field.rs", repl("payload.buf.is_empty()", "payload.buf.len() == 0"))
+
 def main():
     out = os.path.join(V, "benign")
     os.makedirs(out, exist_ok=True)
